@@ -68,7 +68,10 @@ Definition srun (e : senv) (body : sstmt) : option str := snd (sexec e body (mk_
    std::to_string(status_)), one `if (!member.empty())` around an append, and returned.  The string members of the class
    are numbered by the translator in a fixed order (request_line: method_, uri_; response_line: reason_phrase_;
    chunk_header: hex_size_, extension_; last_chunk: extension_, trailer_string_).  std::to_string(int) of the (never
-   negative) status_ is the model's to_dec_string. *)
+   negative) status_ is the model's to_dec_string.
+   The same terms carry the free functions header_field::to_header(name, value), content_length(size) and
+   chunked_encoding() - { return e; } is XSeq (XInit e) XReturn; the string-valued parameters are numbered like members,
+   the size_t parameter sits in the numeric slot (XNumDec), the named constants are those of the regenerated Gen_Tables. *)
 Inductive xexp :=
   | XMem (k : nat)                           (* a std::string member of *this *)
   | XChr (c : byte)                          (* 'c' *)
@@ -76,7 +79,8 @@ Inductive xexp :=
   | XCrLf                                    (* CRLF *)
   | XCat (a b : xexp)                        (* a + b *)
   | XHttpVersion                             (* http_version(major_version_, minor_version_) *)
-  | XStatusDec.                              (* std::to_string(status_) *)
+  | XStatusDec                               (* std::to_string(status_) *)
+  | XNumDec.                                 (* std::to_string(size), size the size_t parameter of a free function *)
 Inductive xstmt :=
   | XInit (e : xexp)                         (* std::string output(e) *)
   | XAppend (e : xexp)                       (* output += e *)
@@ -95,6 +99,7 @@ Fixpoint xeval (e : xenv) (x : xexp) : str :=
   | XCat a b => xeval e a ++ xeval e b
   | XHttpVersion => http_version (xe_major e) (xe_minor e)
   | XStatusDec => to_dec_string (xe_status e)
+  | XNumDec => to_dec_string (xe_status e)
   end.
 
 Fixpoint xexec (e : xenv) (st : xstmt) (out : str) : str * option str :=
